@@ -364,6 +364,7 @@ func TestCheck(t *testing.T) {
 	}
 	phase("su-pattern", func() { h.suPatternPhase(pats) })
 	phase("inner", h.innerPhase)
+	phase("replace", h.replacePhase)
 	phase("record-big", rr.recordBig) // last: the only part the internal deadline may cut
 	rr.close()
 
